@@ -163,8 +163,138 @@ def check_C01(tier):
     return run_check("C01", tier, stages_C01(tier), EVAL_RULE, assumptions=EVAL_ASSUME)
 
 
-CHECKS = {"C01": check_C01}
-STAGES = {"C01": stages_C01}
+# ---------------------------------------------------------------------------
+# trace validation (direction B)
+
+VM_VERDICT_FIELDS = ("underflow", "unclean-exit", "ill-formed-program")
+
+
+def validate_traces(acc, name, trace_path, verdict_fields, record_sum=None, timeout=900):
+    """Run Trace_VM.tla over a recorded trace file; mismatches on verdict_fields
+    become failures, the others are counted as model drift (diagnostic)."""
+    tcfg = vf.cfg_text({"TraceFile": "trace.ndjson"}, spec="TSpec",
+                       invariants=("TNoUnderflow", "TMemoryNonNegative"))
+    with vf.Scratch(acc.prop + "-" + name + "-tv") as d:
+        out = os.path.join(d, "out.ndjson")
+        st = vf.run_tlc("Trace_VM", tcfg, out_cases=out, workers=1, timeout=timeout,
+                        extra_files={"trace.ndjson": open(trace_path, "rb").read()}, name=acc.prop + "-tv")
+        done, mism = None, []
+        for line in open(out):
+            r = json.loads(line)
+            if r.get("kind") == "done":
+                done = r
+            elif r.get("kind") == "mismatch":
+                mism.append(r)
+    if done is None:
+        raise vf.Infra("trace validation did not consume the whole trace (%s)" % name)
+    acc.add_tlc(name + "-validate", st)
+    drift = acc.extra.setdefault("model_drift", {})
+    nfail = 0
+    for r in mism:
+        if r["field"] in verdict_fields:
+            nfail += 1
+            acc.failures.append({"prop": acc.prop, "stage": name, "why": "trace:" + r["field"], "src": r["src"],
+                                 "mode": r.get("mode"), "trace_run": r["run"], "at": r["at"],
+                                 "want": r.get("want"), "got_field": r.get("got")})
+        else:
+            drift[r["field"]] = drift.get(r["field"], 0) + 1
+    acc.execs += done["runs"]
+    acc.nontrivial += done["runs"] - done["rejected"] if record_sum is None else 0
+    acc.extra["trace_runs_validated"] = acc.extra.get("trace_runs_validated", 0) + done["runs"]
+    acc.extra["trace_events_validated"] = acc.extra.get("trace_events_validated", 0) + st.get("distinct", 0)
+    vf.log("[%s] stage %-22s traces: %d runs, %d states validated against Trace_VM (%ss): %d rejected (%d verdict-bearing)" % (
+        acc.prop, name, done["runs"], st.get("distinct", 0), st.get("wall_s"), done["rejected"], nfail))
+    return done, mism
+
+
+def trace_stage(name, family, maxnodes, every, modes="struct:noopt,struct:opt", verdict_fields=VM_VERDICT_FIELDS,
+                max_runs=4000, maxclosure=2):
+    gcfg = gen_cfg(family, maxnodes, maxclosure=maxclosure)
+
+    def f(acc, binary, s):
+        with vf.Scratch(acc.prop + "-" + name) as d:
+            cases = os.path.join(d, "cases.ndjson")
+            vf.run_tlc("MC_Expr", gcfg, out_cases=cases, workers=1, name=acc.prop + "-" + name)
+            trace = os.path.join(d, "trace.ndjson")
+            summ = os.path.join(d, "rec.json")
+            vf.run_harness(binary, ["record", "-in", cases, "-out", trace, "-sum", summ, "-every", str(every),
+                                    "-modes", modes, "-max", str(max_runs)])
+            rs = json.load(open(summ))
+            if rs["runs"] == 0:
+                raise vf.Infra("recorder produced no runs for " + name)
+            if len(acc.samples) < 6:
+                first = json.loads(open(trace).readline())
+                first["events"] = first["events"][:6]
+                acc.samples.append({"trace_run": first})
+            acc.extra["trace_runs_outside_universe"] = acc.extra.get("trace_runs_outside_universe", 0) + rs["skipped_outside_universe"]
+            validate_traces(acc, name, trace, verdict_fields)
+    return Stage(name, "MC_Expr", gcfg, func=f)
+
+
+# ---------------------------------------------------------------------------
+# C05
+
+def mc_vm_cfg(family, n, operand_mod=65536, reject=True, mode="typed", maxclosure=2, emit="none",
+              invariants=("Conforms", "ProgramWellFormed", "RunsClean")):
+    return gen_cfg(family, n, maxclosure=maxclosure, emit=emit, invariants=invariants,
+                   extra={"OperandMod": operand_mod, "Mode": mode, "RejectOverflow": reject})
+
+
+def prog_stage(name, family, n, mode="typed"):
+    cfg = mc_vm_cfg(family, n, mode=mode, emit="progs", invariants=("EmitProg",))
+    return Stage(name, "MC_VM", cfg, "PROG")
+
+
+C05_MC = {"quick": [("arith", 4), ("logic", 4), ("string", 3), ("coll", 3), ("access", 4), ("builtin", 5), ("mixed", 3)],
+          "thorough": [("arith", 5), ("logic", 5), ("string", 4), ("coll", 4), ("access", 5), ("builtin", 6), ("mixed", 4)]}
+
+
+def stages_C05(tier):
+    out = []
+    for fam, n in C05_MC[tier]:
+        out.append(Stage("mc-%s-n%d" % (fam, n), "MC_VM", mc_vm_cfg(fam, n), kind="mc", workers=vf.NCPU))
+    # small scope: operand range 64 and 32; jumps that do not fit must be rejected, everything accepted is well-formed
+    out.append(Stage("mc-small-builtin", "MC_VM", mc_vm_cfg("builtin", 5 if tier == "quick" else 6, operand_mod=64),
+                     kind="mc", workers=vf.NCPU))
+    out.append(Stage("mc-small-logic", "MC_VM", mc_vm_cfg("logic", 5, operand_mod=32), kind="mc", workers=vf.NCPU))
+    for fam, n in [("builtin", 4), ("mixed", 3), ("access", 3)]:
+        out.append(prog_stage("prog-%s-n%d" % (fam, n), fam, n))
+    ev = 7 if tier == "quick" else 2
+    for fam, n in [("builtin", 5), ("mixed", 4), ("logic", 4), ("coll", 4)]:
+        out.append(trace_stage("trace-%s" % fam, fam, n, ev, max_runs=3000 if tier == "quick" else 20000))
+    return out
+
+
+C05_RULE = ("(a) TLC model checking of MC_VM: every expression of each family up to the node budget x every environment "
+            "assignment: Conforms, ProgramWellFormed, RunsClean (incl. operand range 32/64 small scope); (b) the real "
+            "compiler's bytes compared with the specification's compiler (drift diagnostic); (c) real runs recorded "
+            "through the verif hook and validated event by event against VM!Step on the real bytes: verdict-bearing "
+            "are a pop on an empty stack, an unclean exit (values or scopes left), an ill-formed real program "
+            "(VM!WellFormed evaluated by TLC on the real bytes and constants); non-trivial = a validated real run")
+
+
+def drop_prog_drift(acc):
+    drift = [f for f in acc.failures if f.get("why") == "program-differs"]
+    acc.failures = [f for f in acc.failures if f.get("why") != "program-differs"]
+    if drift:
+        acc.extra.setdefault("model_drift", {})["program-differs"] = len(drift)
+
+
+def check_C05(tier):
+    acc = Acc("C05", tier)
+    binary = vf.build_harness()
+    only = os.environ.get("VERIF_ONLY")
+    for s in stages_C05(tier):
+        if only and not s.name.startswith(only):
+            continue
+        run_stage(acc, binary, s)
+    drop_prog_drift(acc)
+    return vf.conclude("C05", tier, "model_checking", acc.t0, acc.failures, acc.coverage(C05_RULE),
+                       assumptions=EVAL_ASSUME + ["the verif hook reports the machine state after each instruction"])
+
+
+CHECKS = {"C01": check_C01, "C05": check_C05}
+STAGES = {"C01": stages_C01, "C05": stages_C05}
 
 
 def warm():
